@@ -20,7 +20,7 @@ FUNCTIONS = [
     "nextflow/scripts/batchie.py: get_screen_from_job_output, get_test_screen_from_job_output, validate_job_dir_and_return_meta, get_theta_and_dist_chunks, get_selected_plates, dir_sort_key",
 ]
 BOUNDS = {
-    "quick": "retrospective mode: 3 plates (batch size symbolic in 1..2) and 4 plates (batch 1..3); prospective mode: batch size 1..3; one interruption at any numbered mutation point of the whole run (each mkdir of each path component, each entry removed by rmtree, inside a pipeline run with any dependency-closed subset of its outputs published, just after a step); every pair of interruptions (second one during the recovery) for 3 plates / batch <= 2; a 12-plate batch-1 retrospective run and the eleventh prospective round (iter_10 next to iter_2..iter_9); completed steps are recorded at the instant of the interruption (handlers of the script run afterwards)",
+    "quick": "retrospective mode: 3 plates (batch size symbolic in 1..2) and 4 plates (batch 1..3); prospective mode: batch size 1..3; one interruption at any numbered mutation point of the whole run (each mkdir of each path component, each entry removed by rmtree, inside a pipeline run with any dependency-closed subset of its outputs published, just after a step); every pair of interruptions (second one during the recovery) for 3 plates / batch <= 2; a 12-plate batch-1 retrospective run and the eleventh prospective round (iter_10 next to iter_2..iter_9); completed steps are recorded at the instant of the interruption (handlers of the script run afterwards); every restart loads the script anew (no module-level state survives)",
     "thorough": "additionally retrospective 5 plates with batch 1..4, two interruptions for 4 plates / batch <= 3, prospective batch up to 5 and two interruptions with batch <= 3; retrospective 6 plates (batch 1..5), 5 plates with two interruptions, 13 plates with batch 1..3; prospective rounds after 1, 3, 10, 11 and 101 earlier uninterrupted rounds",
 }
 ASSUMPTIONS = [
